@@ -17,7 +17,7 @@ SPEC = dict(
          "on the real pipeline (desolvation and backbone terms of listed groups are identical to the run without the option; side-chain "
          "partners keep appearing), not proved end-to-end. A blank chain is addressed as '_' (Atom.chain_id), not ' '.",
     technique="Lean 4 proof (case analysis on the census model, induction over atoms) + differential correspondence + metamorphic runs",
-    lean=["Propka.Props.C14"],
+    lean=["Propka.Props.C14", "Propka.Props.Pipeline"],
     rule="test files and library structures x titrate-only lists: random subsets of residues, all residues, lists with absent entries, "
          "insertion-coded residues, duplicated/reordered lists; non-trivial = list hits at least one ionizable residue and misses one",
     assumptions=[],
